@@ -203,7 +203,10 @@ def main():
             s.add(res.pc)
             s.add(rel)
             cov["queries"] += 1
-            if s.check() == z3.unsat:
+            sv = z3.Solver()
+            sv.set("timeout", 60000)
+            sv.add(s.assertions())
+            if sv.check() == z3.unsat:
                 V.add(f"{tag}#p{pi}: matching relation is satisfiable (vacuity guard)", "inconclusive", detail="the matching relation contradicts the path")
                 continue
             s.add(z3.Not(goal))
